@@ -431,6 +431,16 @@ def oracle_one(ctx, c, out):
         return sorttrace_oracle(ctx, c, out)
     if w[0] == 'GSEL':
         return gsel_oracle(ctx, c, out)
+    if w[0] == 'GCYC':
+        R_, sh, n_ = int(w[1]), int(w[2]), int(w[3]); vals = list(map(int, w[4:])); EV['GCYC R=%d' % R_] += 1
+        if out.startswith('OOB'): return 'cycle-leader loop wrote outside the array'
+        got = list(map(int, out.split('|')[0].split()))
+        dig = lambda v: (v >> sh) & (2 ** R_ - 1)
+        if sorted(got) != sorted(vals): return 'cycle-leader output is not a permutation of the input'
+        if [dig(v) for v in got] != sorted(dig(v) for v in vals): return 'after the cycle-leader loop the items are not bucketed by digit'
+        if any(a_ == b_ for a_, b_ in (t.split('-') for t in out.split('|')[1].split())): return 'cycle-leader loop swapped an item with itself'
+        if n_ >= 3: ctx.nontrivial.add(c)
+        return None
     if w[0] == 'BIGM':
         n_, pos, mode = int(w[1]), int(w[2]), int(w[3]); EV['BIGM step=3 %s mode=%d' % ('quadratic' if mode >= 10 else 'uniform', mode % 10)] += 1; mode %= 10
         if out.startswith('OOB'): return 'read outside the array'
@@ -442,6 +452,16 @@ def oracle_one(ctx, c, out):
         elif not (f == 0 and bb == be and 0 <= bb <= n_): return 'BIGM: absent item reported as %s' % out.split('|')[0]
         ctx.nontrivial.add(c)
         return None
+    if w[0] == 'PCODE':
+        EV['pointer code getter'] += 1
+        return None if out.split() == [str(4 * (int(w[1]) & 0xFFFF)), '1'] else 'pointer code getter: code of &pool[%s] is %s' % (w[1], out)
+    if w[0] == 'IPF':
+        nn = int(w[2]); nums = list(map(int, w[3:])); i_ = nums[2 * nn]; EV['IterHashFunc/IterPrehashFunc adaptors'] += 1
+        return None if out.split() == [str(nums[2 * i_])] * 3 else 'iterator->hash adaptor returned %s for index %d, expected %d three times' % (out, i_, nums[2 * i_])
+    if w[0] == 'GRADIX':
+        R_, W_, cv, sh = map(int, w[1:]); EV['pvGetRadix R=%d W=%d' % (R_, W_)] += 1
+        exp = (cv >> sh) & (2 ** R_ - 1)
+        return None if out.strip() == str(exp) else 'pvGetRadix<%d-bit>(%d, %d) of RadixSorter<%d> = %s, expected %d' % (W_, cv, sh, R_, out, exp)
     if w[0] in ('SCODE', 'UCODE'):
         W = int(w[1]); x = int(w[2]); EV['code getter %s W=%d' % (w[0], W)] += 1
         exp = x + 2 ** (W - 1) if w[0] == 'SCODE' else x
@@ -571,18 +591,23 @@ def run(ctx):
                         'equalFunc is an equivalence relation; equal items have equal hash codes',
                         'Sort is proved about the hand model SorterSort.v (array = list of (code,item) pairs, hashFunc deterministic), tied to the real code by swap trace + final arrangement']
     ctx.regen(GEN)
-    # second generated file: RadixSorter<8>::pvSelectionSort (member template with functors and a local std::array cache)
-    gsel = os.path.join(ctx.cdir, 'Gen_SelSort.v')
-    try:
-        txt = sel2coq.translate(repo=ctx.repo)
-        if not os.path.exists(gsel) or open(gsel).read() != txt:
-            open(gsel, 'w').write(txt)
-        ctx.tie_obligations.append({'name': 'translate Gen_SelSort (pvSelectionSort)', 'ok': True})
-        ctx.stage('regen-selsort', True)
-    except sel2coq.TranslationError as e:
-        if os.path.exists(gsel): os.remove(gsel)
-        ctx.tie_obligations.append({'name': 'translate Gen_SelSort (pvSelectionSort)', 'ok': False, 'error': str(e)[:500]})
-        ctx.stage('regen-selsort', False, str(e))
+    # further generated files (props/C17/sel2coq.py on top of tools/cxx2coq.py): RadixSorter<8>::pvSelectionSort, and the small
+    # RadixSorter functions (integral code getters, pvGetRadix, first shift of Sort)
+    for gname, gfun, what in (('Gen_SelSort.v', sel2coq.translate, 'pvSelectionSort'),
+                              ('Gen_Radix.v', sel2coq.translate_radix, 'code getters, pvGetRadix, first shift of Sort'),
+                              ('Gen_RadixCount.v', sel2coq.translate_count, 'counting pass + prefix sums of pvRadixSort'),
+                              ('Gen_RadixCycle.v', sel2coq.translate_cycle, 'cycle-leader permutation of pvRadixSort')):
+        gpath = os.path.join(ctx.cdir, gname)
+        try:
+            txt = gfun(repo=ctx.repo)
+            if not os.path.exists(gpath) or open(gpath).read() != txt:
+                open(gpath, 'w').write(txt)
+            ctx.tie_obligations.append({'name': 'translate %s (%s)' % (gname[:-2], what), 'ok': True})
+            ctx.stage('regen-' + gname[4:-2].lower(), True)
+        except sel2coq.TranslationError as e:
+            if os.path.exists(gpath): os.remove(gpath)       # a stale model must not keep the proofs green
+            ctx.tie_obligations.append({'name': 'translate %s (%s)' % (gname[:-2], what), 'ok': False, 'error': str(e)[:500]})
+            ctx.stage('regen-' + gname[4:-2].lower(), False, str(e))
     ctx.prove()
     exes = ctx.cxx_many([('harness.cpp', 'harness', []),
                          ('harness_radix.cpp', 'harness_radix', ['-fsanitize=shift', '-fno-sanitize-recover=all'])])
@@ -592,6 +617,12 @@ def run(ctx):
         return ctx.finish(rule=RULE)
     leaves = gen_leaves(ctx, scale)
     codeg = [c for c in leaves if c.startswith(('SCODE', 'UCODE'))]
+    for R_ in range(1, 17):
+        for W_ in (8, 64):
+            for sh in sorted(set([0, 1, max(W_ - R_, 0), max(W_ - R_ - 1, 0), W_ - 1, W_ // 2])):
+                for cv in (0, 1, 2 ** W_ - 1, 2 ** (W_ - 1), ctx.rng.below(2 ** W_), ctx.rng.below(2 ** W_)):
+                    if W_ == 8 and sh >= 32: continue      # code >> shift is computed in int for 8-bit codes
+                    codeg.append('GRADIX %d %d %d %d' % (R_, W_, cv, sh))
     leaves = [c for c in leaves if not c.startswith(('SCODE', 'UCODE'))]
     small = gen_small(ctx, maxlen)
     longc = gen_long(ctx, scale)
@@ -612,6 +643,25 @@ def run(ctx):
     b, _ = run_oracle(ctx, hradix, radix, 'oracle-radix'); bad += b
     b, _ = run_oracle(ctx, hradix, codeg, 'oracle-codegetter'); bad += b
     gsel_cases = gen_gsel(ctx, scale)
+    # generated counting pass + generated cycle-leader permutation vs the real private cycle-leader overload (array + swap order)
+    for R_ in (1, 2, 3, 8):
+        for n_ in range(0, 6 if R_ < 8 else 4):
+            for seq in itertools.product((0, 1, 2, 3), repeat=n_):
+                for sh in ((0, 1, 61) if R_ < 8 else (0, 56)):
+                    if n_ == 0: continue
+                    gsel_cases.append('GCYC %d %d %d %s' % (R_, sh, n_, ' '.join(str((x << sh) | (x % 2)) for x in seq)))
+        for _ in range(150 * scale):
+            n_ = ctx.rng.choice([7, 16, 33, 40, 100]); sh = ctx.rng.choice([0, 3, 8, 56, 64 - R_])
+            pool = [ctx.rng.below(2 ** 64) for _ in range(ctx.rng.range(1, 6))]
+            gsel_cases.append('GCYC %d %d %d %s' % (R_, sh, n_, ' '.join(str(ctx.rng.choice(pool) if ctx.rng.chance(1, 2) else ctx.rng.below(2 ** 64)) for _ in range(n_))))
+    # plumbing without a model (oracle only): iterator->hash adaptors (plain, prehashed forward, prehashed reverse) and the pointer code getter
+    plumb_h = []; plumb_r = ['PCODE %d' % i_ for i_ in (0, 1, 2, 255, 256, 65535)] + ['PCODE %d' % ctx.rng.below(65536) for _ in range(20)]
+    for n_ in (1, 2, 5, 17):
+        prs = [(ctx.rng.below(2 ** 64), k_) for k_ in range(n_)]
+        for i_ in sorted(set([0, n_ - 1, n_ // 2])):
+            plumb_h.append(line('IPF', 'p', prs) + ' %d' % i_)
+    b, _ = run_oracle(ctx, harness, plumb_h, 'oracle-plumbing'); bad += b
+    b, _ = run_oracle(ctx, hradix, plumb_r, 'oracle-pointer-getter'); bad += b
     bigm = []       # model AND real code on arrays of >= 2^22 items (pvGetStepCount = 3)
     for n_ in ((2 ** 22,) if ctx.quick() else (2 ** 22, 2 ** 22 + 5, 2 ** 23 + 1)):
         for pos in [0, 1, n_ - 1, n_ // 2, n_ // 3] + [ctx.rng.below(n_) for _ in range(3 if ctx.quick() else 12)]:
@@ -658,10 +708,10 @@ def run(ctx):
             for (i, c, a, b) in mism[:2]:
                 ctx.violation('model and implementation disagree (%s)' % name, {'case': c, 'impl': a[:2000], 'model': b[:2000],
                               'cmd': 'echo "<case>" | build/C17/harness'}, found_input=True)
-    allc = leaves + small + longc + sorts + radix + narrow + st_hs + st_rs + big + codeg + gsel_cases + bigm
+    allc = leaves + small + longc + sorts + radix + narrow + st_hs + st_rs + big + codeg + gsel_cases + bigm + plumb_h + plumb_r
     for c in (small[len(small) // 2], small[-1], longc[0], sorts[len(sorts) // 3], leaves[5]):
         ctx.add_sample(c[:300])
-    ctx.coverage['input_distribution'] = {k: sum(1 for c in allc if c.startswith(k + ' ')) for k in ('MS', 'SC', 'CMP', 'FH', 'F', 'B', 'S', 'SORT', 'RADIX', 'RADIXP', 'RADIXI', 'HSORT', 'RSORT', 'BIGFIND', 'SCODE', 'UCODE', 'GSEL', 'BIGM')}
+    ctx.coverage['input_distribution'] = {k: sum(1 for c in allc if c.startswith(k + ' ')) for k in ('MS', 'SC', 'CMP', 'FH', 'F', 'B', 'S', 'SORT', 'RADIX', 'RADIXP', 'RADIXI', 'HSORT', 'RSORT', 'BIGFIND', 'SCODE', 'UCODE', 'GSEL', 'BIGM', 'GRADIX', 'IPF', 'PCODE', 'GCYC')}
     ctx.coverage['input_distribution'].update({'measured: ' + k: v for k, v in sorted(EV.items())})
     ctx.coverage['max_array_length'] = max([int(c.split()[2]) for c in longc + sorts] + [int(c.split()[1]) for c in big])
     ctx.coverage['radix'] = 'RadixSorter<1..16> x codes of 8/16/32/64 bits x sizes around the selection-sort threshold 2^(R/2+1) + pointers; std sorted() oracle + groupFunc-call oracle'
